@@ -61,6 +61,15 @@ func assignLed(p *parser, t *token, left *token) *token {
 	return t
 }
 
+// stmtCall marks a call in statement position (for init/post, if init) as
+// requesting no results, as Statement does for a bare call.
+func stmtCall(tok *token) *token {
+	if tok != nil && tok.Symbol == "call" {
+		tok.Tokens[2].Text = "0"
+	}
+	return tok
+}
+
 func getArgs(p *parser) (*token, *token) {
 	p.Advance("(")
 	args := symAtPos(p.Token.Pos, "arguments")
@@ -183,7 +192,7 @@ func ifNud(p *parser, t *token) *token {
 	for {
 		first := p.Expression(0, "{")
 		if p.Token.Symbol == ";" {
-			t.Append(first)
+			t.Append(stmtCall(first))
 			p.Advance(";")
 			t.Append(p.Expression(0, "{"))
 		} else {
@@ -245,11 +254,11 @@ func forNud(p *parser, t *token) *token {
 		return t
 	}
 
-	t.Append(first)
+	t.Append(stmtCall(first))
 	p.Advance(";")
 	t.Append(p.Expression(0, "{"))
 	p.Advance(";")
-	t.Append(p.Expression(0, "{"))
+	t.Append(stmtCall(p.Expression(0, "{")))
 	t.Append(p.Block("block", "{", "}"))
 	return t
 }
